@@ -321,11 +321,91 @@ fn generate(rng: &mut Rng, tier: &str, w: &mut CaseWriter) {
         gen_idx_case(rng, w);
     }
     files::generate(rng, tier, w);
+    // alignment_end from POS and CIGAR against NV.Index.AlignEnd
+    let n = if thorough { 6000 } else { 300 };
+    for _ in 0..n {
+        gen_aend_case(rng, w);
+    }
+}
+
+fn gen_aend_case(rng: &mut Rng, w: &mut CaseWriter) {
+    let start = match rng.below(8) {
+        0 => "-".to_string(),
+        1 => (u64::MAX - rng.below(3)).to_string(),
+        2 => "1".into(),
+        _ => rng.range(1, 1 << 31).to_string(),
+    };
+    let k = rng.range(0, 8);
+    let ops: Vec<String> = (0..k)
+        .map(|_| {
+            let kind = rng.below(9);
+            let len = match rng.below(12) {
+                0 => 0,
+                1 => u64::MAX - rng.below(3),
+                2 => 1u64 << rng.below(64),
+                3 => u64::MAX / 2 + rng.below(3),
+                _ => rng.range(1, 300),
+            };
+            format!("{kind}:{len}")
+        })
+        .collect();
+    w.push("aend", vec![start, if ops.is_empty() { "_".into() } else { ops.join(",") }]);
+}
+
+fn run_aend(c: &Case) -> Obs {
+    use noodles_sam::alignment::{
+        RecordBuf,
+        record::cigar::{Op, op::Kind},
+    };
+    let kinds = [
+        Kind::Match, Kind::Insertion, Kind::Deletion, Kind::Skip, Kind::SoftClip,
+        Kind::HardClip, Kind::Pad, Kind::SequenceMatch, Kind::SequenceMismatch,
+    ];
+    let ops: Vec<(u64, u64)> = if c.args[1] == "_" {
+        vec![]
+    } else {
+        c.args[1]
+            .split(',')
+            .map(|p| {
+                let (k, l) = p.split_once(':').unwrap();
+                (k.parse().unwrap(), l.parse().unwrap())
+            })
+            .collect()
+    };
+    let cigar: noodles_sam::alignment::record_buf::Cigar =
+        ops.iter().map(|&(k, l)| Op::new(kinds[k as usize], l as usize)).collect::<Vec<_>>().into();
+    let mut b = RecordBuf::builder().set_cigar(cigar);
+    let start: Option<u64> = if c.args[0] == "-" { None } else { Some(c.args[0].parse().unwrap()) };
+    if let Some(s) = start {
+        b = b.set_alignment_start(noodles_core::Position::new(s as usize).unwrap());
+    }
+    let rec = b.build();
+    let obs = match nv::guarded(move || noodles_sam::alignment::Record::alignment_end(&rec)) {
+        nv::Outcome::Panicked(_) => "Panic".to_string(),
+        nv::Outcome::Done(None) => "-".into(),
+        nv::Outcome::Done(Some(Err(_))) => "Err".into(),
+        nv::Outcome::Done(Some(Ok(p))) => usize::from(p).to_string(),
+    };
+    // the specification: POS + sum of M D N = X lengths - 1 (POS when the sum is 0)
+    let sum: u128 = ops.iter().filter(|(k, _)| matches!(k, 0 | 2 | 3 | 7 | 8)).map(|&(_, l)| l as u128).sum();
+    let want = match start {
+        None => "-".to_string(),
+        Some(s) => {
+            let e = if sum == 0 { s as u128 } else { s as u128 + sum - 1 };
+            if e <= u64::MAX as u128 { e.to_string() } else { "Err".into() }
+        }
+    };
+    if obs == want {
+        Obs::ok(obs, sum > 0)
+    } else {
+        Obs::fail(obs.clone(), "alignment-end-differs-from-spec", format!("want={want} got={obs} {}", c.line()))
+    }
 }
 
 fn run(c: &Case) -> Obs {
     match c.kind.as_str() {
         "idx" => run_idx(c),
+        "aend" => run_aend(c),
         k => files::run(c).unwrap_or_else(|| Obs::fail("-", "harness-unknown-kind", k)),
     }
 }
